@@ -509,7 +509,7 @@ impl Rig for CcRig {
     fn runs(&self, tier: Tier) -> u64 {
         match tier {
             Tier::Quick => 30_000,
-            Tier::Thorough => 1_000_000,
+            Tier::Thorough => 6_000_000,
         }
     }
     fn gen(&self, rng: &mut Rng, idx: u64, _tier: Tier) -> CcScenario {
